@@ -75,6 +75,32 @@ fn case_typed<S: Spec>(sub: &str, id: u64, r: &mut Report) {
             r.cov(&format!("zero_seed:{}", S::NAME));
             r.distinct(hkey(&[&"zero_seed", &S::NAME]));
         }
+        // the FIRST zero-seed constructions of a fresh process, released together on 16
+        // threads (a lazily built replacement, once-cells, "ready" flags): the monitor
+        // re-executes itself; id = type*64 + repetition
+        "first_zero_seed_race" => {
+            let exe = match std::env::current_exe() { Ok(e) => e, Err(_) => { r.inconclusive("current_exe unavailable".into()); return; } };
+            let ti = (id / 64) as usize;
+            let out = std::process::Command::new(&exe).args(["--c08-race-child", &ti.to_string(), &id.to_string()]).output();
+            let out = match out { Ok(o) if o.status.success() => o, _ => { r.inconclusive("first_zero_seed_race: child process failed".into()); return; } };
+            let want = preset_block(S::NAME, S::SEED_LEN);
+            let mut n = 0;
+            for line in String::from_utf8_lossy(&out.stdout).lines() {
+                let mut it = line.split(' ');
+                let (Some(route), Some(img)) = (it.next(), it.next()) else { continue };
+                n += 1;
+                r.eval();
+                if img == "PANIC" || unhex(img) != want {
+                    r.violation(format!("{}:zero_seed_remap:first_constructions_racing_in_a_fresh_process", S::NAME), sub, id, json!({
+                        "type": S::NAME, "constructor": route, "expected_state": hex(&want), "observed_state": img,
+                        "note": "16 threads made the first all-zero-seed constructions of a fresh process at the same moment"}));
+                    return;
+                }
+            }
+            if n < 16 { r.inconclusive("first_zero_seed_race: child printed too few results".into()); return; }
+            r.cov(&format!("first_zero_seed_race:{}", S::NAME));
+            r.distinct(hkey(&[&"first_zero_seed_race", &S::NAME, &id]));
+        }
         // every other seed is used verbatim (enumerated single-byte seeds: id = type*1024+k)
         "single_byte" => {
             let k = (id % 1024) as usize;
@@ -195,10 +221,50 @@ fn case_typed<S: Spec>(sub: &str, id: u64, r: &mut Report) {
     }
 }
 
+/// child side of first_zero_seed_race: 16 threads leave a spin barrier together and
+/// build a generator from the all-zero seed (even threads: from_seed, odd threads:
+/// from_rng over a source whose first block is zero); prints `<route> <state image>`
+pub fn race_child(ti: usize, id: u64) {
+    with_spec!(ti, S => { race_child_typed::<S>(id) });
+}
+
+fn race_child_typed<S: Spec>(id: u64) {
+    use std::sync::atomic::{AtomicUsize, Ordering};
+    {
+        const N: usize = 16;
+        let arrived = AtomicUsize::new(0);
+        let lines = std::sync::Mutex::new(Vec::new());
+        std::thread::scope(|sc| {
+            for t in 0..N {
+                let (arrived, lines) = (&arrived, &lines);
+                sc.spawn(move || {
+                    let z = vec![0u8; S::SEED_LEN];
+                    // source for from_rng: one zero block, then the documented replacement's own
+                    // bytes never matter (a zero block alone decides for the xoshiro family;
+                    // XorShiftRng redraws: give it the preset as second block)
+                    let mut data = z.clone();
+                    data.extend(preset_block(S::NAME, S::SEED_LEN));
+                    arrived.fetch_add(1, Ordering::SeqCst);
+                    while arrived.load(Ordering::SeqCst) < N { std::hint::spin_loop(); }
+                    let (route, g) = if (t + id as usize) % 2 == 0 {
+                        ("from_seed", guarded(|| S::from_seed(&z)))
+                    } else {
+                        ("from_rng", guarded(|| S::R::from_rng(&mut SourceRng::new(data.clone()))))
+                    };
+                    let img = match g { Ok(g) => hex(&image::<S>(&g)), Err(_) => "PANIC".to_string() };
+                    lines.lock().unwrap().push(format!("{} {}", route, img));
+                });
+            }
+        });
+        for l in lines.into_inner().unwrap() { println!("{}", l); }
+    }
+}
+
 fn case(sub: &str, id: u64, r: &mut Report) {
     let ti = match sub {
         "zero_seed" => id as usize,
         "single_byte" => (id / 1024) as usize,
+        "first_zero_seed_race" => (id / 64) as usize,
         _ => LINEAR_TYPES[Prng::new(id ^ 0x1234).below(15) as usize],
     };
     with_spec!(ti, S => { if S::LINEAR { case_typed::<S>(sub, id, r) } });
@@ -229,6 +295,24 @@ pub fn run(ctx: &Ctx, only: Option<&Only>) -> Report {
     total.merge(drive(ctx, "verbatim", 30_000, secs * 0.2, |id, r| case("verbatim", id, r)));
     total.merge(drive(ctx, "seed_from_u64", 16_000, secs * 0.5, |id, r| case("seed_from_u64", id, r)));
     total.merge(drive(ctx, "from_rng", 30_000, secs * 0.3, |id, r| case("from_rng", id, r)));
+    if ctx.scale >= 1.0 {
+        // 15 types x 24 fresh processes
+        let reps: u64 = if ctx.tier_thorough { 64 } else { 24 };
+        total.merge(par(ctx.threads.min(4), |t, r| {
+            let mut k = 0usize;
+            for &ti in &LINEAR_TYPES {
+                for rep in 0..reps {
+                    if k % ctx.threads.min(4) == t {
+                        run_case("first_zero_seed_race", ti as u64 * 64 + rep, r, &|id, r: &mut Report| case("first_zero_seed_race", id, r));
+                    }
+                    k += 1;
+                }
+            }
+        }));
+        for &ti in &LINEAR_TYPES {
+            total.floor(&format!("first_zero_seed_race:{}", TYPE_NAMES[ti]), 8);
+        }
+    }
     for &ti in &LINEAR_TYPES {
         let n = TYPE_NAMES[ti];
         total.floor(&format!("zero_seed:{}", n), 1);
